@@ -3,7 +3,9 @@
 From stdpp Require Import gmap.
 From Coq Require Import NArith.
 From RV Require Import Ingress.IngressModel Rib.RibModel Bmp.BmpModel Bmp.BmpProofs.
+From RV Require Import Bmp.BmpStreamModel Bmp.BmpStreamProofs Bmp.BmpUnitProofs.
 From RV Require Gate.GateModel Gate.GateProofs.
+From RV Require Http.EscapeModel Bmp.BmpUnitTextModel Bmp.BmpUnitTextProofs.
 Local Open Scope N_scope.
 
 (* at every point of every message history the three peer gauges equal the
@@ -93,4 +95,155 @@ Example C15_gate_example :
   let tr := [GateModel.ASendSub 1; GateModel.ARoot; GateModel.ABegin 0; GateModel.ADeliver 0; GateModel.AEnd 0;
              GateModel.ARxDrop 0; GateModel.ABegin 0; GateModel.ADeliver 0; GateModel.AEnd 0] in
   (GateModel.m_upd (GateModel.run cf tr), GateModel.m_drop (GateModel.run cf tr)) = (2, 1).
+Proof. vm_compute. reflexivity. Qed.
+
+(* ---- unit level: the counters the connection handler itself keeps per router
+   (src/units/bmp_tcp_in/metrics.rs RouterMetrics: num_bmp_messages_received[type 0..6],
+   num_bmp_messages_processed, num_invalid_bmp_messages, num_receive_io_errors) and
+   connection_lost_count, over the read loop of Bmp/BmpStreamModel.v (the model of C06 / C07).
+   A reader is ANY script of read events [evs] (a byte arrives / a read fails once with some
+   io::ErrorKind) followed by end of file or silence until unit shutdown [tl]; [parse] is routecore's
+   parser - any function that never accepts a frame whose type octet is above 6 ([parse_types_ok]);
+   [iters_of parse tl evs] is what the read loop met, one entry per iteration, read off the script
+   alone (no session state, no counters). *)
+
+(* for every script, from any starting state: the session ends in the cleanup, and every counter has
+   grown by exactly the number of matching iterations - per type: accepted frames with that type
+   octet; processed: frames handed to the state machine; invalid: InvalidMessage answers of the state
+   machine run (BmpModel.sm_run) over exactly those messages; io errors: failed calls of
+   BmpStream::next (failed reads, end of file, a short length field, frames the parser rejects) *)
+Theorem C15_unit_counters_count : forall parse tl rid evs s u, parse_types_ok parse -> um_wf u ->
+  let its := iters_of parse tl evs in
+  let run := sm_run (s_reg s) rid (s_sm s) (it_msgs its) in
+  exists e rest s' u',
+    run_from_m parse tl rid evs s u = (Done e rest s' (cleanup rid s'), u') /\
+    (forall t, (t < 7)%nat -> recv_of u' t = recv_of u t + countb (it_type (N.of_nat t)) its) /\
+    rm_processed (router_metrics u') = rm_processed (router_metrics u) + N.of_nat (length (it_msgs its)) /\
+    rm_invalid (router_metrics u') = rm_invalid (router_metrics u) + sumN (map inval run.2) /\
+    rm_ioerr (router_metrics u') = rm_ioerr (router_metrics u) + countb it_failed its /\
+    s_reg s' = run.1.1 /\ s_sm s' = run.1.2.
+Proof. exact unit_counters_count. Qed.
+Print Assumptions C15_unit_counters_count.
+
+(* the loop with counters is the loop C06 and C07 are stated about *)
+Theorem C15_unit_counters_same_session : forall parse tl rid evs s u, parse_types_ok parse -> um_wf u ->
+  (run_from_m parse tl rid evs s u).1 = run_from parse true tl rid evs s.
+Proof. exact unit_counters_same_session. Qed.
+Print Assumptions C15_unit_counters_same_session.
+
+(* a fresh connection: the counters ARE the counts; received = sum over the types = processed; the
+   invalid counter equals the state machine's own unprocessable counter (C15_counters_count); when
+   the session ends the lost connection is counted once and the router's series are dropped *)
+Theorem C15_unit_counters_fresh_connection : forall parse tl addr evs, parse_types_ok parse ->
+  let rid := (conn_init addr).1 in
+  let s0 := (conn_init addr).2 in
+  let its := iters_of parse tl evs in
+  let run := sm_run (s_reg s0) rid sm_init (it_msgs its) in
+  exists e rest s' u',
+    run_from_m parse tl rid evs s0 um_init = (Done e rest s' (cleanup rid s'), u') /\
+    (forall t, (t < 7)%nat -> recv_of u' t = countb (it_type (N.of_nat t)) its) /\
+    rm_processed (router_metrics u') = N.of_nat (length (it_msgs its)) /\
+    sumN (rm_recv (router_metrics u')) = rm_processed (router_metrics u') /\
+    rm_invalid (router_metrics u') = sumN (map inval run.2) /\
+    rm_invalid (router_metrics u') = m_unprocessable (sm_metrics (s_sm s')) /\
+    rm_ioerr (router_metrics u') = countb it_failed its /\
+    um_lost u' = 0 /\ unit_final (Done e rest s' (cleanup rid s'), u') = MkUM None 1.
+Proof. exact unit_counters_fresh. Qed.
+Print Assumptions C15_unit_counters_fresh_connection.
+
+(* at any quiescent moment - the connection has handed out the first k read events and waits for
+   more - the counters are the counts over the iterations completed so far *)
+Theorem C15_unit_counters_at_quiescent_point : forall parse rid evs k s u sk uk, parse_types_ok parse -> um_wf u ->
+  conn_at parse rid evs k s u = Some (sk, uk) ->
+  let its := iters_of parse THang (take k evs) in
+  let run := sm_run (s_reg s) rid (s_sm s) (it_msgs its) in
+  (forall t, (t < 7)%nat -> recv_of uk t = recv_of u t + countb (it_type (N.of_nat t)) its) /\
+  rm_processed (router_metrics uk) = rm_processed (router_metrics u) + N.of_nat (length (it_msgs its)) /\
+  rm_invalid (router_metrics uk) = rm_invalid (router_metrics u) + sumN (map inval run.2) /\
+  rm_ioerr (router_metrics uk) = rm_ioerr (router_metrics u) + countb it_failed its /\
+  um_lost uk = um_lost u /\ s_sm sk = run.1.2.
+Proof. exact unit_counters_at_quiescent_point. Qed.
+Print Assumptions C15_unit_counters_at_quiescent_point.
+
+(* received = sum over types: an invariant of every run *)
+Theorem C15_unit_counters_received_is_sum : forall parse tl rid evs s u res u', parse_types_ok parse -> um_wf u ->
+  sumN (rm_recv (router_metrics u)) = rm_processed (router_metrics u) ->
+  run_from_m parse tl rid evs s u = (res, u') ->
+  sumN (rm_recv (router_metrics u')) = rm_processed (router_metrics u').
+Proof. exact run_received_is_sum. Qed.
+Print Assumptions C15_unit_counters_received_is_sum.
+
+(* counters never decrease: over a run from any state ... *)
+Theorem C15_unit_counters_monotone : forall parse tl rid evs s u res u', parse_types_ok parse -> um_wf u ->
+  run_from_m parse tl rid evs s u = (res, u') ->
+  (forall t, (t < 7)%nat -> recv_of u t <= recv_of u' t) /\
+  rm_processed (router_metrics u) <= rm_processed (router_metrics u') /\
+  rm_invalid (router_metrics u) <= rm_invalid (router_metrics u') /\
+  rm_ioerr (router_metrics u) <= rm_ioerr (router_metrics u') /\
+  um_lost u <= um_lost (unit_final (res, u')).
+Proof. exact run_monotone. Qed.
+Print Assumptions C15_unit_counters_monotone.
+
+(* ... and between any two quiescent moments of one connection *)
+Theorem C15_unit_counters_monotone_between_reads : forall parse rid evs k1 k2 s u s1 u1 s2 u2,
+  parse_types_ok parse -> um_wf u -> (k1 <= k2)%nat ->
+  conn_at parse rid evs k1 s u = Some (s1, u1) -> conn_at parse rid evs k2 s u = Some (s2, u2) ->
+  (forall t, (t < 7)%nat -> recv_of u1 t <= recv_of u2 t) /\
+  rm_processed (router_metrics u1) <= rm_processed (router_metrics u2) /\
+  rm_invalid (router_metrics u1) <= rm_invalid (router_metrics u2) /\
+  rm_ioerr (router_metrics u1) <= rm_ioerr (router_metrics u2).
+Proof. exact conn_at_monotone. Qed.
+Print Assumptions C15_unit_counters_monotone_between_reads.
+
+(* `num_bmp_messages_received[type octet]` has 7 slots and the octet comes from the wire: the index
+   stays in range for every script because the parser never accepts a type above 6 ... *)
+Theorem C15_unit_counters_index_in_range : forall parse tl rid evs s u p r s' u', parse_types_ok parse -> um_wf u ->
+  run_from_m parse tl rid evs s u <> (Panic p r s', u').
+Proof. exact unit_index_in_range. Qed.
+Print Assumptions C15_unit_counters_index_in_range.
+
+(* ... and only because of that: a parser that lets type 7 through makes the connection task panic
+   at the index, on a six-byte frame (nothing in rotonda checks the octet) *)
+Theorem C15_unit_counters_index_needs_parser_guarantee :
+  (forall u code, um_wf u -> 7 <= code -> message_received u code = None) /\
+  exists s u, run_from_m (fun _ => Some MInit) TEof 1 (map EByte [3; 0; 0; 0; 6; 7]) (conn_init 1).2 um_init
+              = (Panic PMetricsIndex [] s, u).
+Proof. exact (conj message_received_out_of_range index_needs_parser_guarantee). Qed.
+Print Assumptions C15_unit_counters_index_needs_parser_guarantee.
+
+(* an HTTP client that looks at the router's page makes the router's series appear (all zeros if
+   nothing was counted yet) and changes no counter *)
+Theorem C15_unit_counters_page_visit_changes_nothing : forall u,
+  router_metrics (page_visit u) = router_metrics u /\ um_lost (page_visit u) = um_lost u /\
+  (forall t, recv_of (page_visit u) t = recv_of u t) /\ (um_wf u -> um_wf (page_visit u)).
+Proof. exact page_visit_spec. Qed.
+Print Assumptions C15_unit_counters_page_visit_changes_nothing.
+
+(* the Prometheus text of these counters: every label set of a router's series (component = unit name,
+   router = format_source_id(template, _, ingress id), msg_type = one of the seven RFC 7854 names) is
+   well formed and is read back exactly by a consumer of the exposition format, if the two configured
+   strings are free of quote, backslash and newline (cf. C19_metrics_labels_safe: the router label never
+   contains text a router sent) *)
+Theorem C15_unit_counters_labels_parse : forall unit tpl id ls,
+  EscapeModel.prom_value_ok unit = true -> EscapeModel.prom_value_ok tpl = true ->
+  List.In ls (BmpUnitTextModel.unit_router_series unit tpl id) ->
+  forallb EscapeModel.label_ok ls = true /\ EscapeModel.prom_parse (EscapeModel.prom_labels ls) = Some ls.
+Proof. exact BmpUnitTextProofs.unit_series_roundtrip. Qed.
+Print Assumptions C15_unit_counters_labels_parse.
+
+(* Initiation, a frame of unknown type 9 (rejected by the parser: one io error), a read that times out
+   (not fatal: one io error), Initiation again (accepted, nothing to do), a Peer Down for a peer that is
+   not up (invalid), end of file (the third io error; the connection is lost) *)
+Example C15_unit_counters_example :
+  let parse (f : list N) : option msg :=
+    match f with
+    | [_; _; _; _; _; 4] => Some MInit
+    | [_; _; _; _; _; 2] => Some (MPeerDown (0, 0, 0, 0, 1, 65001, 1))
+    | _ => None
+    end in
+  let evs := map EByte [3; 0; 0; 0; 6; 4; 3; 0; 0; 0; 6; 9] ++ [EErr KTimedOut] ++ map EByte [3; 0; 0; 0; 6; 4; 3; 0; 0; 0; 6; 2] in
+  let x := run_from_m parse TEof (conn_init 1).1 evs (conn_init 1).2 um_init in
+  (rm_recv (router_metrics x.2), rm_processed (router_metrics x.2), rm_invalid (router_metrics x.2),
+   rm_ioerr (router_metrics x.2), unit_final x)
+  = ([0; 0; 1; 0; 2; 0; 0], 3, 1, 3, MkUM None 1).
 Proof. vm_compute. reflexivity. Qed.
